@@ -253,6 +253,32 @@ def run(ctx):
                           % (knames[vi], hk.path_lines(hk.path(tb, skip, avoid=un_blocks))))
     ctx.finish_rule()
 
+    # ------------------------------------------------------------------ R8
+    # emptying the line puts the cursor at 0: wherever the editor clears its buffer, the cursor is reset before the function hands control back
+    # (a blank line submitted with the cursor behind its spaces would otherwise leave "cursor 3 of 0 characters" for the next key)
+    ctx.rule("C20.R8", "clearing the edit buffer resets the cursor", floor=1)
+    nclear = 0
+    for n, f in sorted(prog.fns.items()):
+        if f.bkind != "fn" or not n.startswith(T):
+            continue
+        resets = {b for b, i, s_ in f.assigns() if fields_of(s_["p"])[-1:] == [cur] and s_["r"]["k"] == "use" and s_["r"]["a"].get("int") == 0}
+        rets_f = {b for b in f.live_blocks() if f.term(b)["k"] == "return"}
+        for b, t, c in f.calls():
+            if not (c and c.endswith("alloc::string::String::clear") and "buffer" in expr_str(f.expr(t["args"][0], 6), 120)):
+                continue
+            nclear += 1
+            ctx.instance(1)
+            nxt = t.get("t")
+            esc = sorted(f.reachable(nxt, avoid=resets) & rets_f) if nxt is not None else []
+            ok = not esc
+            ctx.oblig(ok, {"clear in": short(n), "at": sp_file_line(t.get("sp"))}, "cursor := 0 on every path to the return")
+            if not ok:
+                ctx.violation("clear-without-cursor-reset|%s" % short(n), sp_file_line(t.get("sp")),
+                              "`%s` empties the edit buffer and can return without putting the cursor back to 0 (lines %s): the cursor then lies behind the end of "
+                              "the empty line and the next printable key trips the bounds assertion" % (short(n), f.path_lines(f.path(nxt, set(esc), avoid=resets) or [])))
+    ctx.need(nclear >= 1, "buffer.clear() in the line editor")
+    ctx.finish_rule()
+
     # ------------------------------------------------------------------ R5
     ctx.rule("C20.R5", "history keys move the cursor only when they change the focused entry", floor=2)
     hist_writes = [(b, s) for b, i, s in hk.assigns() if fields_of(s["p"])[-2:] == ["history", "index"]]
